@@ -587,6 +587,91 @@ SCALAR_OPS = [
 ]
 
 
+def check_nested_collections(rep, rng, n):
+    """collections whose elements are themselves containers (SEQUENCE OF SEQUENCE OF INTEGER, SET OF SEQUENCE OF, SEQUENCE OF
+    record, SEQUENCE OF CHOICE), several value objects of ONE schema object driven by interleaved histories: each equals its own
+    list-of-lists model after every step (appending by reading one past the end, filling what the read handed out, extend,
+    clear, clone), the others and the schema's element type do not move"""
+    def mk(elem):
+        return univ.SequenceOf(componentType=elem)
+    elems = {
+        'seqof-int': lambda: univ.SequenceOf(componentType=univ.Integer()),
+        'setof-int': lambda: univ.SetOf(componentType=univ.Integer()),
+        'seqof-seqof-int': lambda: univ.SequenceOf(componentType=univ.SequenceOf(componentType=univ.Integer())),
+    }
+    for name in sorted(elems):
+        for rnd in range(n):
+            schema = mk(elems[name]())
+            objs = [schema.clone(), schema.clone(), schema.clone()]
+            models = [[], [], []]
+            steps = []
+            for step in range(rng.randrange(3, 12)):
+                k = rng.randrange(3)
+                o, m = objs[k], models[k]
+                op = rng.choice(['read-append', 'read-append', 'append-built', 'fill-last', 'clear', 'clone-over'])
+                deep = name == 'seqof-seqof-int'
+                x = rng.randrange(100)
+                steps.append((k, op, x))
+                try:
+                    if op == 'read-append':
+                        row = o[len(o)]                     # the accessor creates the element one past the end
+                        if deep:
+                            inner = row[len(row)]
+                            inner.append(x)
+                            m.append([[x]])
+                        else:
+                            row.append(x)
+                            m.append([x])
+                    elif op == 'append-built':
+                        row = schema.componentType.clone()
+                        if deep:
+                            inner = schema.componentType.componentType.clone()
+                            inner.append(x)
+                            row.append(inner)
+                            m.append([[x]])
+                        else:
+                            row.append(x)
+                            m.append([x])
+                        o.append(row)
+                    elif op == 'fill-last' and m:
+                        if deep:
+                            o[len(o) - 1][0].append(x)
+                            m[-1][0].append(x)
+                        else:
+                            o[len(o) - 1].append(x)
+                            m[-1].append(x)
+                    elif op == 'clear':
+                        o.clear()
+                        del m[:]
+                    elif op == 'clone-over':
+                        objs[k] = o.clone(cloneValueFlag=True)
+                except error.PyAsn1Error as e:
+                    rep.fail('nested-collection-refused-' + op, '%s on a %s: %s' % (op, name, e), {'kind': 'nested-collections', 'elem': name, 'steps': steps})
+                    break
+                rep.evaluations += 1
+                rep.count('nested-collections')
+
+                def content(obj):
+                    if deep:
+                        return [[[int(z) for z in inner] for inner in row] for row in obj]
+                    rows = [[int(z) for z in row] for row in obj]
+                    return rows
+                bad = None
+                for j in range(3):
+                    got = content(objs[j])
+                    want = models[j] if not name.startswith('setof') else models[j]
+                    if name.startswith('setof'):
+                        got, want = [sorted(r_) for r_ in got], [sorted(r_) for r_ in want]
+                    if got != want:
+                        bad = 'object %d holds %s, its list model %s' % (j, got, want)
+                        break
+                if bad is None and (schema.componentType.isValue or len(schema.componentType) != 0 or schema.isValue):
+                    bad = 'the element type of the schema now holds %s' % (schema.componentType.prettyPrint()[:80],)
+                if bad:
+                    rep.fail('nested-collection-shares-state', '%s after %s' % (bad, steps[-4:]), {'kind': 'nested-collections', 'elem': name, 'steps': steps})
+                    break
+
+
 def schema_scalar_checks(rep):
     """every operation a value object of the class supports must raise PyAsn1Error on the schema object"""
     for cls in SCALAR_CLASSES:
@@ -691,6 +776,9 @@ CORPUS = [
     # before field-2 as text): names, values and items stay in position order
     ('HIST rec 0 ()', ' '.join('(setpos %d (obj %d))' % (i, i) for i in range(12)) + ' (keys) (values) (items) (len) (encode)'),
     ('HIST rec 0 ()', ' '.join('(setpos %d (obj %d))' % (i, 20 - i) for i in range(13)) + ' (keys) (items) (clone 1) (keys) (encode)'),
+    # a record without declared components grown past 256 members (the interpreter shares small ints up to 256: positions
+    # beyond compare equal without being the same object)
+    ('HIST rec 0 ()', ' '.join('(setpos %d (obj %d))' % (i, i % 7) for i in range(260)) + ' (len) (keys) (encode) (clone 1) (len)'),
     # positions filled back to front (the store's insertion order differs from the position order), then whole-container ops
     ('HIST seqof 1 0', '(setpos 2 (py 30)) (setpos 1 (py 20)) (setpos 0 (py 10)) (reverse) (iter) (encode)'),
     ('HIST seqof 0 1', '(setpos 2 (obj 3)) (setpos 1 (obj 2)) (setpos 0 (obj 1)) (reverse) (iter) (encode)'),
@@ -977,6 +1065,8 @@ def run(rep, tier, seed):
     check_sort_variants(rep, common.rng_for(seed, 'C19', 'sort'), 400 if quick else 20000)
     check_reads_constrained(rep)
     check_reassign_plain(rep)
+    rep.case('nested collections', nontrivial=True)
+    check_nested_collections(rep, common.rng_for(seed, 'C19', 'nested'), 25 if quick else 1500)
     # corpus first
     for head, ops_s in CORPUS:
         kind = kind_of(head)
